@@ -1,4 +1,4 @@
 from .values import (Int, Bool, Str, Opaque, Tup, Obj, Opt, Seq, SetOf, MapOf, Unsupported,
                      SInt, SBool, SStr, SOpq, SSeq, SSet, SMap, SOpt, ObjVal)
-from .contract import Contract, LoopSpec, verify_contract
+from .contract import Contract, LoopSpec, verify_contract, NativeOutcome
 from .interp import Model, SelfModel
